@@ -98,6 +98,10 @@ func (exec *Executor) execArrayIndex(
 					break
 				}
 			}
+
+			if res.failed() || (res == statusOK && found == nil) {
+				break
+			}
 		}
 
 		return res, resErr
